@@ -412,7 +412,10 @@ Definition locate_ps1 (o : oracles) (source_lines : list str) : res (list nat * 
     end in
   match mode1 with
   | M_eval =>
-      do semi <- o_semi o exec1;
+      (* only the final statement is evaluated: the semicolon scan covers its lines only
+         (since fix F13, 'fix: only a semicolon in the final statement forces single mode') *)
+      let final_start := match last_opt ps1 with Some x => x | None => O end in
+      do semi <- o_semi o (skipn final_start exec1);
       Ok (ps1, if semi then M_single else M_eval)
   | m => Ok (ps1, m)
   end.
